@@ -53,9 +53,22 @@ Inductive c19_rop :=
    (name, wrapper id, phase, Err <> "", value) *)
 Definition c19_rstep : Type := c19_rop * list (Z * Z * Z) * Z * list (Z * Z * Z * Z * Z).
 
+(* ---------- visitors ---------- *)
+(* op (Some cfgs = UpdateAll with (name, value) entries, None = only keepVisitorsRunning rounds),
+   names whose visitor.Run() fails at this step (bind port occupied by the harness),
+   status rows (name, value, running 0/1, same visitor object as before the step 0/1),
+   number of listeners of closed visitors that are still open *)
+Definition c19_vstep : Type := option (list (Z * Z)) * list Z * list (Z * Z * Z * Z) * Z.
+
 Inductive c19_case :=
 | CHealth (kind maxFailed : Z) (hasN hasF : bool) (probes : list Z) (events : list (list Z))
-| CRecon (w e : Z) (steps : list c19_rstep).
+| CRecon (w e : Z) (steps : list c19_rstep)
+| CVis (steps : list c19_vstep)
+(* system variant (real frpc against an in-process frps), quiescent reloads only: configuration
+   set, set of NewProxy/CloseProxy requests the SERVER saw during the step (1/2, name, 0), status
+   rows of the client afterwards (name, phase, value) *)
+| CSys (steps : list (list (Z * Z * bool) * list (Z * Z * Z) * list (Z * Z * Z))).
+
 
 Definition c19_cfg (x : Z * Z * bool) : rc_cfg :=
   let '(n, v, h) := x in {| rc_name := n; rc_val := v; rc_hc := h |}.
@@ -143,6 +156,77 @@ Definition c19_health_model (kind maxFailed : Z) (hasN hasF : bool) (probes : li
   let c := {| hm_max := hm_norm_max maxFailed; hm_hasN := hasN; hm_hasF := hasF |} in
   map (map c19_ev) (snd (hm_run (c19_kind kind) c (map c19_probe probes))).
 
+Definition c19_vcfg (x : Z * Z) : rc_cfg := {| rc_name := fst x; rc_val := snd x; rc_hc := false |}.
+Definition c19_vok (blocked : list Z) (n : Z) : bool := negb (existsb (Z.eqb n) blocked).
+
+(* the op, then keepVisitorsRunning rounds until nothing changes (one round suffices: idempotent) *)
+Definition c19_vmodel_step (s : vm_state) (op : option (list (Z * Z))) (blocked : list Z) : vm_state * list vm_event :=
+  let ok := c19_vok blocked in
+  let '(s1, e1) := match op with
+                   | Some cfgs => vm_update s (map c19_vcfg cfgs) ok
+                   | None => (s, [])
+                   end in
+  let '(s2, e2) := vm_keep s1 ok in
+  (s2, e1 ++ e2).
+
+Definition c19_vstatus (s s' : vm_state) : list (Z * Z * Z * Z) :=
+  map (fun nc : Z * rc_cfg =>
+         let n := fst nc in
+         (n, rc_val (snd nc),
+          (match rc_get (vm_vis s') n with Some _ => 1 | None => 0 end),
+          (match rc_get (vm_vis s) n, rc_get (vm_vis s') n with
+           | Some a, Some b => if a =? b then 1 else 0
+           | _, _ => 0 end)))
+      (vm_cfgs s').
+
+Definition c19_t4_eqb (a b : Z * Z * Z * Z) : bool :=
+  let '(a1, a2, a3, a4) := a in let '(b1, b2, b3, b4) := b in
+  (a1 =? b1) && (a2 =? b2) && (a3 =? b3) && (a4 =? b4).
+
+(* reason codes: 21 status rows differ, 22 a closed visitor still listens *)
+Fixpoint c19_vis_check (s : vm_state) (steps : list c19_vstep) : Z :=
+  match steps with
+  | [] => 0
+  | (op, blocked, status, stale) :: r =>
+      let '(s1, _) := c19_vmodel_step s op blocked in
+      if negb (c19_set_eqb c19_t4_eqb status (c19_vstatus s s1)
+               && (Z.of_nat (length status) =? Z.of_nat (length (vm_cfgs s1)))) then 21
+      else if negb (stale =? 0) then 22
+      else c19_vis_check s1 r
+  end.
+
+Fixpoint c19_vis_events (s : vm_state) (steps : list c19_vstep) : list vm_event :=
+  match steps with
+  | [] => []
+  | (op, blocked, _, _) :: r =>
+      let '(s1, ev) := c19_vmodel_step s op blocked in ev ++ c19_vis_events s1 r
+  end.
+
+(* the server answers every NewProxy with success: all waiting wrappers get their reply *)
+Definition c19_reply_all (t : pw_timing) (s : pm_state) (now : Z) : pm_state :=
+  fold_left (fun acc ne => let e := snd ne in
+                           match rc_get (pm_map acc) (fst ne) with
+                           | Some e' => if pw_phase_eqb (pw_ph (pe_w e')) PWWait
+                                        then fst (pm_step t acc (PMResp (fst ne) now false true)) else acc
+                           | None => acc
+                           end) (pm_map s) s.
+
+Definition c19_t3s_eqb := c19_t3_eqb.
+(* reason codes: 31 server-side requests differ, 32 client status rows differ *)
+Fixpoint c19_sys_check (t : pw_timing) (s : pm_state) (now : Z)
+  (steps : list (list (Z * Z * bool) * list (Z * Z * Z) * list (Z * Z * Z))) : Z :=
+  match steps with
+  | [] => 0
+  | (cfgs, evs, rows) :: r =>
+      let '(s1, now1, outs) := c19_model_step t s now (ROUpdate cfgs) in
+      let s2 := c19_reply_all t s1 now1 in
+      let mrows := map (fun ne : Z * pm_entry =>
+                          (fst ne, pw_phase_code (pw_ph (pe_w (snd ne))), rc_val (pe_cfg (snd ne)))) (pm_map s2) in
+      if negb (c19_set_eqb c19_t3_eqb evs (flat_map c19_msg_of outs)) then 31
+      else if negb (c19_set_eqb c19_t3_eqb rows mrows && (Z.of_nat (length rows) =? Z.of_nat (length mrows))) then 32
+      else c19_sys_check t s2 now1 r
+  end.
+
 Definition c19_check_case (c : c19_case) : Z :=
   match c with
   | CHealth kind maxFailed hasN hasF probes events =>
@@ -151,7 +235,11 @@ Definition c19_check_case (c : c19_case) : Z :=
       else 0
   | CRecon w e steps =>
       c19_recon_check {| pw_wait := w; pw_errto := e |} pm_init 1000 steps
+  | CVis steps => c19_vis_check vm_init steps
+  | CSys steps => c19_sys_check {| pw_wait := 100; pw_errto := 100000 |} pm_init 1000 steps
   end.
+
+
 
 (* coverage counters: how many cases made the model withdraw / register again / survive a
    failure run that a success had interrupted *)
@@ -224,3 +312,34 @@ Definition c19_case_reaches_running (c : c19_case) : bool :=
   existsb (fun x => let '(_, _, s1, _) := x in
                     existsb (fun ne : Z * pm_entry => pw_phase_eqb (pw_ph (pe_w (snd ne))) PWRunning) (pm_map s1))
           (c19_recon_trace c).
+
+Definition c19_case_vis_closes (c : c19_case) : bool :=
+  match c with
+  | CVis steps => existsb (fun e => match e with VMClosed _ _ => true | _ => false end) (c19_vis_events vm_init steps)
+  | _ => false
+  end.
+Definition c19_case_vis_start_fails (c : c19_case) : bool :=
+  match c with
+  | CVis steps => existsb (fun e => match e with VMStartFailed _ => true | _ => false end) (c19_vis_events vm_init steps)
+  | _ => false
+  end.
+(* a visitor whose start had failed is started by a later keep round *)
+Fixpoint c19_started_after_failure (failed : list Z) (evs : list vm_event) : bool :=
+  match evs with
+  | [] => false
+  | VMStartFailed n :: r => c19_started_after_failure (n :: failed) r
+  | VMStarted _ n :: r => existsb (Z.eqb n) failed || c19_started_after_failure failed r
+  | _ :: r => c19_started_after_failure failed r
+  end.
+Definition c19_case_vis_keep_restarts (c : c19_case) : bool :=
+  match c with
+  | CVis steps => c19_started_after_failure [] (c19_vis_events vm_init steps)
+  | _ => false
+  end.
+Definition c19_case_vis_duplicate (c : c19_case) : bool :=
+  match c with
+  | CVis steps => existsb (fun x : c19_vstep => match fst (fst (fst x)) with
+                                                | Some cfgs => c19_has_dup (map fst cfgs)
+                                                | None => false end) steps
+  | _ => false
+  end.
